@@ -197,6 +197,9 @@ def _with_meta(metas, fn):
 def run_c01(ctx):
     n = _tier(ctx, 24, 300)
     jobs = pc.corpus_jobs(['S18_*.scn', 'S11_*.scn', 'R1_*.scn']) + pc.generated_jobs('C01', ctx['seed'], n, ['entities', 'entities', 'mixed'])
+    # a join placed exactly at a despawn by another client (several joiners: the host's drain order varies)
+    jd, _ = _jobs_from(scen.join_at_despawn, 'C01d', ctx['seed'], _tier(ctx, 3, 30))
+    jobs += jd
     out = pc.run_scenarios('C01', ctx, jobs, [oracles.c01_entities], nontrivial=pc.received_kinds)
     out['opstats']['entity_model_replays'] = _absent(out)
     return pc.make_result('C01', ctx, out, 'frames of generated spawn/despawn histories (1..3 clients, paced frames, marks before connection, late joins) + corpus; non-trivial = distinct (scenario, receiver, entity message kind, uuid) received')
@@ -267,7 +270,8 @@ def run_c03(ctx):
     jobs, metas = _jobs_from(scen.join, 'C03', ctx['seed'], n)
     # joiners of sessions with skins (the snapshot must carry a joint before the skin that names it, S13)
     gk, _ = _jobs_from(scen.skinned_join, 'C03k', ctx['seed'], _tier(ctx, 4, 40))
-    jobs = pc.corpus_jobs(['S18_*.scn', 'S11_*.scn', 'R1_*.scn', 'R2_*.scn', 'S12_*.scn', 'S13_*.scn', 'S25_*.scn', 'S26*.scn', 'S30_*.scn']) + jobs + gk
+    gd, _ = _jobs_from(scen.join_at_despawn, 'C03d', ctx['seed'], _tier(ctx, 2, 20))
+    jobs = pc.corpus_jobs(['S18_*.scn', 'S11_*.scn', 'R1_*.scn', 'R2_*.scn', 'S12_*.scn', 'S13_*.scn', 'S25_*.scn', 'S26*.scn', 'S30_*.scn']) + jobs + gk + gd
     out = pc.run_scenarios('C03', ctx, jobs, [_with_meta(metas, _c03_oracle), oracles.c16_skins], nontrivial=pc.received_kinds)
     out['opstats']['entity_model_replays'] = _absent(out)
     out['opstats']['registry_model_replays'], out['opstats']['registry_model_steps'] = _absdl(out)
@@ -435,7 +439,8 @@ def run_c07(ctx):
 def run_c08(ctx):
     n = _tier(ctx, 32, 400)
     cj, _ = _jobs_from(scen.crash_cross, 'C08x', ctx['seed'], n)
-    jobs = pc.corpus_jobs(['S3_*.scn', 'S5_*.scn']) + cj + pc.generated_jobs('C08', ctx['seed'], n // 2, ['appcmd', 'mixed', 'skinned'])
+    lj, _ = _jobs_from(scen.link_vs_app_despawn, 'C08l', ctx['seed'], max(8, n // 4))
+    jobs = pc.corpus_jobs(['S3_*.scn', 'S5_*.scn']) + cj + lj + pc.generated_jobs('C08', ctx['seed'], n // 2, ['appcmd', 'mixed', 'skinned'])
     out = pc.run_scenarios('C08', ctx, jobs, [oracles.panics], nontrivial=pc.received_kinds)
     # "... or published assets": what the real decoders do with a download cut off at an arbitrary point
     # (an asset beyond the transfer limit), under catch_unwind, compared with the model's decoders
